@@ -541,7 +541,9 @@ Definition fs_sandbox : fs :=
     ([s2b "out"; s2b "link"], Link (false, [Up; Down (s2b "sibling")]));
     ([s2b "out"; s2b "deep"; s2b "l2"],
        Link (false, [Up; Up; Down (s2b "sibling"); Down (s2b "keepdir")]));
-    ([s2b "out"; s2b "flink"], Link (false, [Up; Down (s2b "outside.txt")])) ].
+    ([s2b "out"; s2b "flink"], Link (false, [Up; Down (s2b "outside.txt")]));
+    (* a dangling link: its target does not exist (File::create through it would create it) *)
+    ([s2b "out"; s2b "dlink"], Link (false, [Up; Down (s2b "nowhere.txt")])) ].
 
 (* ------------------------------------------------------------------ *)
 (** * components: agreement with the real std::path on Linux *)
